@@ -91,7 +91,7 @@ func cmdCheck(prop, tier string) int {
 	byMod := map[string][]*Contract{}
 	boundedBy := map[string][]*Contract{} // harness -> functions it stands in for (this property)
 	for _, c := range db.Contracts {
-		if c.Extern || (c.Trusted != "" && len(c.Checks) == 0) {
+		if c.Extern || (c.Trusted != "" && len(c.Checks) == 0 && !c.hasStructural()) {
 			continue
 		}
 		has := false
